@@ -284,17 +284,17 @@ def run(ctx, chk):
         if not fns:
             continue
         nfrom += 1
-        b = fns[0]["body"][1]
-        e = unblock(b[0][1]) if len(b) == 1 else None
         arg = fns[0]["sig"]["params"][0][0]
-        v = None
-        if e is not None and e[0] == "call" and len(e[2]) == 1:
-            v = (path_of(e[1]) or "").split("::")[-1]
-            a = e[2][0]
-            payload_ok = path_of(a) == arg or (a[0] == "mcall" and path_of(a[1]) == arg and a[2] in ("to_owned", "to_string", "into"))
-        else:
-            payload_ok = False
-        tt = {"&'astr": "String", "String": "String", "u32": "u32", "u64": "u64"}.get(t, t)
+        from ..symeval import SymEval, Hooks, Panic as SPanic
+        import re as _re
+        t = _re.sub(r"'\w+\s*", "", tr[tr.index("<") + 1:tr.rindex(">")]).replace(" ", "")
+        try:
+            r_ = SymEval(Hooks(), "From<%s>::from" % t).run(fns[0], {arg: ("param", arg)})
+        except (Anchor, SPanic) as ex:
+            r_ = ("not analysable", str(ex))
+        v = r_[1].split("::")[-1] if isinstance(r_, tuple) and r_ and r_[0] == "enum" else None
+        payload_ok = v is not None and r_[2] == [("param", arg)]
+        tt = {"&str": "String", "String": "String", "u32": "u32", "u64": "u64"}.get(t, t)
         want = first_of.get(tt) or first_of.get("spirv::" + tt.split("::")[-1])
         chk.check(R4, payload_ok and v is not None and v == want, "From<%s>" % t, "builds Operand::%s, expected Operand::%s" % (v, want), W,
                   sample={"T": t, "variant": v})
